@@ -15,7 +15,7 @@ func hx(s string) []byte { b, _ := hex.DecodeString(s); return b }
 func TestNTLMv2Vector(t *testing.T) {
 	nt := refcrypto.NT("Password")
 	info := EncodeAvPairs([]AvPair{{2, refcrypto.UTF16LE("Domain")}, {1, refcrypto.UTF16LE("Server")}})
-	if hex.EncodeToString(info) != "02000c0044006f006d00610069006e0001000c005300650072007600650072000000" + "0000" {
+	if hex.EncodeToString(info) != "02000c0044006f006d00610069006e0001000c005300650072007600650072000000"+"0000" {
 		t.Fatalf("avpairs %x", info)
 	}
 	blob := append([]byte{1, 1, 0, 0, 0, 0, 0, 0}, make([]byte, 8)...)
@@ -82,5 +82,35 @@ func TestChallengeBuildAndDescriptorValidation(t *testing.T) {
 	n = append(n, 1, 2, 3, 4, 5, 6)
 	if _, p := ParseNegotiate(n); len(p) == 0 {
 		t.Fatal("overlap not detected")
+	}
+}
+
+// The AUTHENTICATE fixed part is 64, 72 (with Version) or 88 bytes (with Version and MIC) long; the form is
+// read off the smallest offset of a non-empty payload field.
+func TestAuthenticateHeaderForms(t *testing.T) {
+	build := func(header int, payload []byte, userOffset int) []byte {
+		b := make([]byte, header)
+		copy(b, Signature)
+		b[8] = 3
+		b[36], b[38], b[40] = byte(len(payload)), byte(len(payload)), byte(userOffset) // UserNameFields
+		return append(b, payload...)
+	}
+	for _, header := range []int{64, 72, 88} {
+		a, p := ParseAuthenticate(build(header, []byte("user"), header))
+		if a == nil || len(p) != 0 || string(a.User.Data) != "user" {
+			t.Fatalf("%d-byte header rejected: %v", header, p)
+		}
+		if (a.Version != nil) != (header >= 72) || (a.MIC != nil) != (header == 88) {
+			t.Fatalf("%d-byte header: version %v MIC %v", header, a.Version != nil, a.MIC != nil)
+		}
+		if a, p := ParseAuthenticate(build(header, nil, 0)); a == nil || len(p) != 0 {
+			t.Fatalf("%d-byte message without payload rejected: %v", header, p)
+		}
+	}
+	if _, p := ParseAuthenticate(build(88, []byte("user"), 60)); len(p) == 0 {
+		t.Fatal("payload inside the 64-byte descriptor block not detected")
+	}
+	if _, p := ParseAuthenticate(build(88, []byte("user"), 90)); len(p) == 0 {
+		t.Fatal("payload beyond the message not detected")
 	}
 }
